@@ -98,6 +98,19 @@ def f4_histories(kind, depth, options=None):
 
 
 def f4_build(kind, opts, seed=0):
+    if kind in ('shortmid', 'shortmid-il'):
+        # segments that are complete by their own offsets but whose raw data stops inside the last chunk - also in the middle of
+        # the file ("less data than expected"); what such a chunk means is fixed by the eager read, the oracle is differential
+        base = 'int' if kind == 'shortmid' else 'il'
+        hist = [f4_segment(base, o, si) for si, o in enumerate(opts)]
+        for si, (s_, o) in enumerate(zip(hist, opts)):
+            if isinstance(o, tuple) and (si < len(hist) - 1 or si == 0):
+                n = o[0]
+                if base == 'il':
+                    s_['short'] = 6                      # one row (Int16 + Int32)
+                else:
+                    s_['short'] = 4 if si % 2 == 0 else 4 * n + 2   # A loses one value / A loses the chunk and B one value
+        return hist
     hist = [f4_segment(kind, o, si) for si, o in enumerate(opts)]
     if kind == 'daqmx':
         for s in hist:
